@@ -182,7 +182,14 @@ def evaluate(kind, case, acc):
         acc.oracle_evaluations += 1
         try:
             got_in = v in result
-            got_c = result.contains(v) if has_contains else got_in
+            if has_contains or type(result).__name__ in ("EmptySpecifier", "AnySpecifier"):
+                try:
+                    got_c = result.contains(v)  # the property names both spellings of membership
+                except AttributeError as e:
+                    acc.fail(kind, f"membership:contains-unavailable:{type(result).__name__}", {"tree": tree, "v": v}, expected=exp, got=f"AttributeError: {e}")
+                    break
+            else:
+                got_c = got_in
         except ValueError:
             if arbitrary:
                 acc.discarded["===:ValueError-allowed"] += 1
